@@ -92,6 +92,10 @@ def layout(rng, x, kind=None):
         return np.ascontiguousarray(x).copy(), "C"
     if kind == "F":
         return np.asfortranarray(x).copy(order="F"), "F"
+    if kind == "transposed" and x.ndim >= 3:
+        # stored with the last two axes exchanged and handed over as a transposed view (what GUPPIRawReader does)
+        big = np.ascontiguousarray(np.swapaxes(x, -1, -2)).copy()
+        return np.swapaxes(big, -1, -2), "transposed"
     if kind == "readonly":
         y = np.ascontiguousarray(x).copy()
         y.flags.writeable = False          # e.g. np.frombuffer / a read-only memory map
